@@ -674,6 +674,242 @@ fn text_event(t: &mut Shards, rng: &mut Rng, dt: &DataType, st: &DataType) {
     t.next_episode();
 }
 
+// ------------------------------------------------------- text -> value (lexical)
+fn cps(s: &str) -> Value {
+    Value::Array(s.chars().map(|c| json!(c as u32)).collect())
+}
+
+fn string_col(texts: &[Option<String>], st: &DataType) -> ArrayRef {
+    let base: ArrayRef = Arc::new(StringArray::from(texts.iter().map(|x| x.as_deref()).collect::<Vec<_>>()));
+    arrow_cast::cast(&base, st).expect("string re-encoding")
+}
+
+/// the cast of a string column (any string encoding) to `b`, both modes
+fn text_cast_event(t: &mut Shards, rng: &mut Rng, texts: &[String], st: &DataType, b: &DataType, null_pct: usize) {
+    let col: Vec<Option<String>> = texts.iter().map(|x| if rng.chance(null_pct) { None } else { Some(x.clone()) }).collect();
+    let arr = string_col(&col, st);
+    let (arr, via) = if matches!(st, DataType::Dictionary(_, _)) { (arr, "orig") } else { realise(rng, arr) };
+    let strict = do_cast(arr.as_ref(), b, false);
+    let safe = do_cast(arr.as_ref(), b, true);
+    let cls = if strict.cls() == "panic" || safe.cls() == "panic" { "panic" } else { "" };
+    let mut ev = json!({"k":"text2v","api":"cast","b":val::tdesc(b),"bn":tok::type_str(b),"src":tok::type_str(st),
+        "in":col.iter().map(|x| cps(x.as_deref().unwrap_or(""))).collect::<Vec<_>>(),"iv":col.iter().map(|x| x.is_some() as i64).collect::<Vec<_>>(),
+        "via":via,"cls":cls});
+    let m = ev.as_object_mut().unwrap();
+    put_outcome(m, "s", &strict);
+    put_outcome(m, "f", &safe);
+    t.emit(ev);
+    t.next_episode();
+}
+
+/// arrow_cast::parse::Parser::parse row by row
+fn text_parse_event(t: &mut Shards, texts: &[String], b: &DataType) {
+    use arrow_array::types::*;
+    use arrow_cast::parse::Parser;
+    macro_rules! go {
+        ($T:ty) => {{
+            let rows: Vec<Row> = texts.iter().map(|s| guarded(|| <$T as Parser>::parse(s)).ok().flatten().map(|v| vec![v.to_string().parse::<BigInt>().unwrap()])).collect();
+            rows
+        }};
+    }
+    use DataType::*;
+    let rows: Vec<Row> = match b {
+        Int8 => go!(Int8Type),
+        Int16 => go!(Int16Type),
+        Int32 => go!(Int32Type),
+        Int64 => go!(Int64Type),
+        UInt8 => go!(UInt8Type),
+        UInt16 => go!(UInt16Type),
+        UInt32 => go!(UInt32Type),
+        UInt64 => go!(UInt64Type),
+        Duration(TimeUnit::Second) => go!(DurationSecondType),
+        Duration(TimeUnit::Millisecond) => go!(DurationMillisecondType),
+        Duration(TimeUnit::Microsecond) => go!(DurationMicrosecondType),
+        Duration(TimeUnit::Nanosecond) => go!(DurationNanosecondType),
+        Time32(TimeUnit::Second) => go!(Time32SecondType),
+        Time32(_) => go!(Time32MillisecondType),
+        Time64(TimeUnit::Microsecond) => go!(Time64MicrosecondType),
+        Time64(_) => go!(Time64NanosecondType),
+        _ => return,
+    };
+    t.emit(json!({"k":"text2v","api":"parse","b":val::tdesc(b),"bn":tok::type_str(b),"src":"str",
+        "in":texts.iter().map(|x| cps(x)).collect::<Vec<_>>(),"iv":vec![1; texts.len()],"via":"","cls":"",
+        "f_err":false,"f_out":val::rows_json(b, &rows),"f_ov":val::valid_json(&rows)}));
+    t.next_episode();
+}
+
+/// every string of length <= n over the alphabet
+fn all_strings(alpha: &[char], n: usize) -> Vec<String> {
+    let mut out = vec![String::new()];
+    let mut last = vec![String::new()];
+    for _ in 0..n {
+        let mut next = Vec::with_capacity(last.len() * alpha.len());
+        for s in &last {
+            for c in alpha {
+                let mut x = s.clone();
+                x.push(*c);
+                next.push(x);
+            }
+        }
+        out.extend(next.iter().cloned());
+        last = next;
+    }
+    out
+}
+
+/// a numeral decorated with whitespace and with junk at the start, in the middle and at the end
+fn decorate(num: &str) -> Vec<String> {
+    let mut v = vec![num.to_string()];
+    let mid = num.len() / 2 + if num.starts_with('-') { 1 } else { 0 };
+    let mid = mid.min(num.len());
+    for junk in [".", "x", ":", "e", " ", "-", "+", "0", ".5", "_", ","] {
+        v.push(format!("{junk}{num}"));
+        v.push(format!("{num}{junk}"));
+        v.push(format!("{}{junk}{}", &num[..mid], &num[mid..]));
+    }
+    let plain = v.clone();
+    for s in &plain {
+        v.push(format!(" {s}"));
+        v.push(format!("{s} "));
+        v.push(format!("\t{s}\n"));
+        v.push(format!("  {s}\r\n"));
+    }
+    v.push(format!("+{num}"));
+    v.push(format!(" +{num}"));
+    v.push(format!("000{}", num.trim_start_matches('-')));
+    v.push(format!("\u{a0}{num}"));
+    v.push(format!("{num}\u{b}"));
+    v.push(format!("{num}.0"));
+    v.push(format!("{num}.49"));
+    v.push(format!("{num}.5"));
+    v.push(format!(" {num}.5"));
+    v.push(format!("{num}e0"));
+    v
+}
+
+fn boundary_numerals() -> Vec<String> {
+    let mut v: Vec<BigInt> = vec![];
+    for w in [8u32, 16, 32, 64] {
+        for (lo, hi) in [(-pow2(w - 1), pow2(w - 1) - 1), (BigInt::zero(), pow2(w) - 1)] {
+            for c in [lo, hi] {
+                for d in -1..=1 {
+                    v.push(&c + d);
+                }
+            }
+        }
+    }
+    for k in [1u32, 2, 3, 5, 9, 10, 18, 19, 20, 38] {
+        let p = BigInt::from(10).pow(k);
+        v.push(p.clone());
+        v.push(&p - 1);
+        v.push(-p);
+    }
+    v.sort();
+    v.dedup();
+    v.iter().map(|x| x.to_string()).collect()
+}
+
+fn text_to_value(t: &mut Shards, rng: &mut Rng, args: &Args) {
+    use DataType::*;
+    let utf8 = [Utf8, LargeUtf8, Utf8View, Dictionary(Box::new(Int32), Box::new(Utf8))];
+    let int_targets_quick = [Int8, UInt8, Int32, UInt64];
+    let all_ints = [Int8, Int16, Int32, Int64, UInt8, UInt16, UInt32, UInt64];
+    let durations = [Duration(TimeUnit::Second), Duration(TimeUnit::Millisecond), Duration(TimeUnit::Microsecond), Duration(TimeUnit::Nanosecond)];
+    let decs = [Decimal32(5, 2), Decimal128(38, 10), Decimal64(18, 0)];
+    // (1) the exhaustive small universe
+    let alpha = [' ', '\t', '+', '-', '0', '1', '9', '.', 'e', 'x', ':'];
+    let uni = all_strings(&alpha, 4);
+    let int_targets: Vec<DataType> = if args.thorough() { all_ints.to_vec() } else { int_targets_quick.to_vec() };
+    for chunk in uni.chunks(256) {
+        for b in &int_targets {
+            text_cast_event(t, rng, chunk, &Utf8, b, 0);
+        }
+        text_cast_event(t, rng, chunk, &Utf8, &decs[0], 0);
+        if args.thorough() {
+            text_cast_event(t, rng, chunk, &Utf8View, &Int16, 5);
+            text_cast_event(t, rng, chunk, &LargeUtf8, &decs[1], 5);
+            text_parse_event(t, chunk, &Int64);
+            text_parse_event(t, chunk, &durations[3]);
+        } else if rng.chance(25) {
+            text_parse_event(t, chunk, rng.pick(&all_ints));
+            text_parse_event(t, chunk, rng.pick(&durations));
+        }
+    }
+    // (2) boundary numerals of every width, decorated
+    let mut texts: Vec<String> = vec![];
+    for n in boundary_numerals() {
+        texts.extend(decorate(&n));
+    }
+    texts.sort();
+    texts.dedup();
+    let step = if args.thorough() { 1 } else { 3 };
+    for (ci, chunk) in texts.chunks(128).enumerate() {
+        for (bi, b) in all_ints.iter().enumerate() {
+            if (ci + bi) % step == 0 {
+                let st = &utf8[(ci + bi) % utf8.len()];
+                text_cast_event(t, rng, chunk, st, b, if ci % 2 == 0 { 0 } else { 10 });
+            }
+            if (ci + bi) % (2 * step) == 0 {
+                text_parse_event(t, chunk, b);
+            }
+        }
+        for (bi, b) in durations.iter().enumerate() {
+            if (ci + bi) % step == 0 {
+                text_parse_event(t, chunk, b);
+            }
+        }
+        for (bi, b) in decs.iter().enumerate() {
+            if (ci + bi) % step == 0 {
+                text_cast_event(t, rng, chunk, &utf8[(ci + bi) % utf8.len()], b, 5);
+            }
+        }
+    }
+    // (3) booleans: every string of length <= 3 over the letters of the accepted words, and mutations of the words
+    let balpha = ['t', 'r', 'u', 'e', 'f', 'a', 'l', 's', 'y', 'n', 'o', '0', '1', ' ', 'T', 'F'];
+    let mut btexts = all_strings(&balpha, if args.thorough() { 3 } else { 2 });
+    for w in ["true", "false", "yes", "no", "on", "off", "1", "0", "t", "f", "y", "n", "tr", "tru", "fa", "fal", "fals", "ye", "of"] {
+        for d in [w.to_string(), w.to_uppercase(), format!(" {w} "), format!("\t{w}"), format!("{w}\u{a0}"), format!("{w}e"), format!("{w}1"), format!("x{w}"), format!("{}", &w[..w.len() - 1]), format!("{w} x"), format!("{w}\u{212a}")] {
+            btexts.push(d);
+        }
+    }
+    btexts.sort();
+    btexts.dedup();
+    for (ci, chunk) in btexts.chunks(256).enumerate() {
+        text_cast_event(t, rng, chunk, &utf8[ci % utf8.len()], &Boolean, if ci % 2 == 0 { 0 } else { 8 });
+    }
+    // (4) times of day: the documented forms and their neighbourhoods
+    let mut ttexts: Vec<String> = vec![];
+    let hours = ["0", "1", "9", "00", "01", "09", "10", "11", "12", "13", "19", "23", "24", "29", "99", "1x", ""];
+    let mins = ["00", "01", "59", "60", "5", "0x", "99"];
+    let secs = ["", ":00", ":59", ":60", ":61", ":5", ":0x", ":30.", ":30.5", ":30.123456789", ":30.1234567891", ":30.12x", ":59.999999999", ":60.5", ".5"];
+    let sufs = ["", " AM", " PM", " am", " pM", "AM", " A", " AM ", "  PM"];
+    for h in hours {
+        for m in mins {
+            for s in secs {
+                for x in sufs {
+                    if args.thorough() || rng.chance(30) {
+                        ttexts.push(format!("{h}:{m}{s}{x}"));
+                    }
+                }
+            }
+        }
+    }
+    for n in ["0", "1", "-1", "+5", " 5", "5 ", "86399", "86400", "2147483647", "2147483648", "-2147483649", "9223372036854775807", "9223372036854775808", "12", "1230", "12:3", ":30", "1:", "", "12.30", "12:30:", "12:30:4", "1:2:3"] {
+        ttexts.push(n.to_string());
+    }
+    ttexts.sort();
+    ttexts.dedup();
+    let times = [Time32(TimeUnit::Second), Time32(TimeUnit::Millisecond), Time64(TimeUnit::Microsecond), Time64(TimeUnit::Nanosecond)];
+    for (ci, chunk) in ttexts.chunks(128).enumerate() {
+        for (bi, b) in times.iter().enumerate() {
+            text_cast_event(t, rng, chunk, &utf8[(ci + bi) % utf8.len()], b, if ci % 2 == 0 { 0 } else { 8 });
+            if (ci + bi) % 2 == 0 {
+                text_parse_event(t, chunk, b);
+            }
+        }
+    }
+}
+
 // ------------------------------------------------------------------- K6
 fn type_zoo(rng: &mut Rng, extra: usize) -> Vec<DataType> {
     use DataType::*;
@@ -848,6 +1084,9 @@ fn main() {
                 }
             }
         }
+    }
+    if want("text2v") {
+        text_to_value(&mut t, &mut rng, &args);
     }
     if want("dtype") {
         for dt in type_zoo(&mut rng, args.scale(300, 8000)) {
